@@ -20,7 +20,7 @@ import (
 func init() {
 	h.Register(&h.Prop{
 		ID: "C11",
-		Rule: "cases: <g>mul/add/sub/neg/eq (elements from scalars {0,1,2,r-1,r,r+1,(r±1)/2,2^256-1,random}, sums incl. a+b≡0 and a=b), scenc; " +
+		Rule: "cases: gteq (pairing values e(aG1,bG2) vs e(cG1,dG2), equal iff ab=cd), <g>mul/add/sub/neg/eq (elements from scalars {0,1,2,r-1,r,r+1,(r±1)/2,2^256-1,random}, sums incl. a+b≡0 and a=b), scenc; " +
 			"g1dec/g2dec/gtdec/scdec on byte strings mutated around valid encodings (every length 0..2·size, single-bit flips, coordinate swaps, x+kp, (p,0)-style identities, negation, off-curve, on-twist-outside-subgroup, tags, random); " +
 			"<g>into (decode into a used receiver), <g>strm (MarshalTo→UnmarshalFrom with trailing data). non-trivial = every case except the unmodified encoding of the identity/generator; distinct = distinct case line",
 		Gen:  gen,
@@ -423,6 +423,32 @@ func exec(line string) (res h.Result) {
 			res.Oracle = fmt.Sprintf("%s-equal-vs-bytes: Equal=%v, encodings equal=%v", g, eq, same)
 		}
 		res.Class = fmt.Sprintf("%s-%d", op, b2i(want))
+	case op == "gteq":
+		// e(aG1, bG2) and e(cG1, dG2): equal elements iff ab ≡ cd (mod r); two different computations
+		a, b, c, d := h.BigDec(w[1]), h.BigDec(w[2]), h.BigDec(w[3]), h.BigDec(w[4])
+		P := suite.Pair(elem("g1", a), elem("g2", b))
+		Q := suite.Pair(elem("g1", c), elem("g2", d))
+		pe, _ := P.MarshalBinary()
+		qe, _ := Q.MarshalBinary()
+		eq, same := P.Equal(Q), bytes.Equal(pe, qe)
+		res.Impl = fmt.Sprintf("eq=%d enc=%d", b2i(eq), b2i(same))
+		s1 := new(big.Int).Mul(new(big.Int).Mod(a, bnref.Rn), new(big.Int).Mod(b, bnref.Rn))
+		s2 := new(big.Int).Mul(new(big.Int).Mod(c, bnref.Rn), new(big.Int).Mod(d, bnref.Rn))
+		want := s1.Mod(s1, bnref.Rn).Cmp(s2.Mod(s2, bnref.Rn)) == 0
+		if eq != want {
+			res.Oracle = fmt.Sprintf("gt-equal-mismatch: Equal=%v but the elements are equal=%v", eq, want)
+		} else if eq != same {
+			res.Oracle = fmt.Sprintf("gt-equal-vs-bytes: Equal=%v, encodings equal=%v", eq, same)
+		} else if len(pe) != 384 {
+			res.Oracle = fmt.Sprintf("gt-length: %d", len(pe))
+		} else {
+			// round trip of a pairing value
+			R := suite.GT().Point()
+			if err := R.UnmarshalBinary(pe); err != nil || !R.Equal(P) {
+				res.Oracle = "gt-roundtrip-differs"
+			}
+		}
+		res.Class = fmt.Sprintf("gteq-%d", b2i(want))
 	case op == "g1strm" || op == "g2strm":
 		// MarshalTo a buffer, append a tail, UnmarshalFrom: must give the element back and leave the tail
 		g := op[:2]
